@@ -1,6 +1,7 @@
 package rules
 
 import (
+	"os"
 	"fmt"
 	"go/token"
 	"go/types"
@@ -81,10 +82,9 @@ func runC04(c *engine.Ctx) {
 			if len(va) >= 2 {
 				verified = va[1]
 			}
-			for _, a := range na {
-				if engine.IsNamed(a.Type(), engine.ModPath+"/pkg/msg", "Login") {
-					used = a
-				}
+			_ = na
+			for _, a := range argsOfType(nc, func(t types.Type) bool { return engine.IsNamed(t, engine.ModPath+"/pkg/msg", "Login") }) {
+				used = a
 			}
 			c.Check(verified != nil && engine.SameValue(verified, used), "server.Service.RegisterControl>same-message", nc.Pos(), 2,
 				[]string{"verified: " + engine.Describe(verified), "used: " + engine.Describe(used)},
@@ -212,6 +212,11 @@ func runC04(c *engine.Ctx) {
 				if _, isLocal := st.Addr.(*ssa.Alloc); isLocal {
 					return
 				}
+				if root, _ := engine.FieldPath(st.Addr); root != nil {
+					if _, fresh := engine.Unwrap(root).(*ssa.Alloc); fresh {
+						return // a field of an object built here (a per-session parameter carrier), not shared state
+					}
+				}
 				src := engine.Provenance(st.Val, engine.ProvOpts{NoArgs: true})
 				for g := range src.Globals {
 					if g.Object() == always {
@@ -249,13 +254,26 @@ func runC04(c *engine.Ctx) {
 					continue
 				}
 				// a non-constant flag must be HandleListener's own parameter, forwarded unchanged
-				src := engine.Provenance(internalArg, engine.ProvOpts{})
-				ok := len(src.Params) == 1 && src.HasParam("internal") && len(src.Calls) == 0 && len(src.Fields) == 0 && len(src.Consts) == 0
-				root := f
-				for root.Parent() != nil {
-					root = root.Parent()
+				// (through the parameters of unexported helpers the accept loop was split into, if any)
+				src := engine.DeepSources(p, internalArg)
+				ok := len(src.Calls) == 0 && len(src.Fields) == 0 && len(src.Consts) == 0 && len(src.Globals) == 0
+				fromListener := false
+				for pr := range src.Params {
+					host := pr.Parent()
+					for host.Parent() != nil {
+						host = host.Parent()
+					}
+					ho, _ := host.Object().(*types.Func)
+					switch {
+					case ho != nil && engine.SameFunc(ho, handleListener) && pr == pr.Parent().Params[len(pr.Parent().Params)-1]:
+						fromListener = true
+					case ho != nil && !ho.Exported() && host.Pkg == f.Pkg:
+						// a helper's parameter: resolved to its callers' arguments above
+					default:
+						ok = false
+					}
 				}
-				ok = ok && root.Object() == handleListener
+				ok = ok && fromListener
 				c.Check(ok, key, call.Pos(), len(src.Values), []string{"internal argument: " + src.Summary()},
 					"non-constant internal flag is HandleListener's own parameter forwarded unchanged")
 			}
@@ -353,7 +371,7 @@ func runC04(c *engine.Ctx) {
 					return ""
 				}
 				r := st.Sink.(*ssa.Return)
-				if len(r.Results) != 1 || !definitelyNonNilError(st.Resolve(r.Results[0])) {
+				if len(r.Results) != 1 || !nonNilOnPath(st, st.Resolve(r.Results[0])) {
 					return "a refusing path of Service.RegisterWorkConn may return nil: the caller would keep the unverified connection open"
 				}
 				return ""
@@ -471,8 +489,15 @@ func closeOfParam(name string) func(ssa.Instruction) string {
 		if len(args) == 0 {
 			return ""
 		}
-		if isParam(name)(engine.Unwrap(args[0])) || isCellOfParam(engine.Unwrap(args[0]), name) {
+		a := engine.Unwrap(args[0])
+		if isParam(name)(a) || isCellOfParam(a, name) {
 			return "close"
+		}
+		// inside a local helper closure (`abort := func(...) { workConn.Close(); … }`): the captured parameter itself
+		if fv, ok := a.(*ssa.FreeVar); ok && fv.Name() == name {
+			if b := engine.ClosureBinding(fv); b != nil && isParam(name)(engine.Unwrap(b)) {
+				return "close"
+			}
 		}
 		return ""
 	}
@@ -648,67 +673,105 @@ func justifyNil(c *engine.Ctx, st *engine.PathState, f *ssa.Function, mname, sco
 	if v, k := st.IsNil(extractOf(tokVerify, 1)); k && v {
 		return ""
 	}
-	// (b) token: ConstantTimeEqString(GetAuthKey(token, m.Timestamp), m.PrivilegeKey) is true
+	// (b) token: ConstantTimeEqString(GetAuthKey(token, m.Timestamp), m.PrivilegeKey) is true. The comparison may sit
+	// in the method or in helpers explored inline (a key type with `matches`); the operands are identified by where they
+	// come from: one derives from GetAuthKey over the configured token and this message's Timestamp, the other is this
+	// message's PrivilegeKey.
+	p := c.P
+	throughHelpers := func(v ssa.Value) *ssa.Call {
+		for i := 0; i < 4; i++ {
+			if cl, _ := engine.ResultOfCall(v); cl != nil && engine.SameFunc(engine.CalleeObj(cl), ctEq) {
+				return cl
+			}
+			if r := st.Returned(v); r != nil && r != v {
+				v = st.Resolve(r)
+				continue
+			}
+			break
+		}
+		return nil
+	}
+	isTokenField := func(fv *types.Var) bool {
+		if fv.Pkg() == nil {
+			return false
+		}
+		if strings.HasSuffix(fv.Pkg().Path(), "/pkg/config/v1") && fv.Name() == "Token" {
+			return true
+		}
+		return strings.HasSuffix(fv.Pkg().Path(), "/pkg/auth") && strings.EqualFold(fv.Name(), "token")
+	}
 	okKey := false
 	for _, l := range st.Lits {
 		if l.Op != 0 || !l.Val {
 			continue
 		}
-		call, _ := engine.ResultOfCall(l.X)
+		call := throughHelpers(l.X)
 		if call == nil || !engine.SameFunc(engine.CalleeObj(call), ctEq) || len(call.Call.Args) != 2 {
 			continue
 		}
-		a, b := call.Call.Args[0], call.Call.Args[1]
-		isKey := func(v ssa.Value) bool {
-			kc, _ := engine.ResultOfCall(v)
-			if kc == nil || !engine.SameFunc(engine.CalleeObj(kc), getAuthKey) || len(kc.Call.Args) != 2 {
+		sa, sb := st.DeepSources(p, call.Call.Args[0], false), st.DeepSources(p, call.Call.Args[1], false)
+		if os.Getenv("FRPSA_DEBUG_C04") != "" {
+			fmt.Fprintf(os.Stderr, "C04 %s: a=%s | b=%s\n", mname, sa.Summary(), sb.Summary())
+		}
+		isKey := func(s *engine.Sources, arg ssa.Value) bool {
+			if !s.HasCall(getAuthKey) || !s.HasField(tsF) {
 				return false
 			}
-			tok := engine.Provenance(kc.Call.Args[0], engine.ProvOpts{})
-			tokOK := false
-			for fv := range tok.Fields {
-				if fv.Name() == "token" {
-					tokOK = true
+			for fv := range s.Fields {
+				if isTokenField(fv) {
+					return true
 				}
 			}
-			ts, _ := engine.LoadedField(kc.Call.Args[1])
-			return tokOK && ts == tsF
+			// the secret may live in a wrapper type: where it was stored from decides (the configured Token)
+			for fv := range st.DeepSources(p, arg, true).Fields {
+				if isTokenField(fv) {
+					return true
+				}
+			}
+			return false
 		}
-		isPK := func(v ssa.Value) bool { fv, _ := engine.LoadedField(v); return fv == pkF }
-		if (isKey(a) && isPK(b)) || (isKey(b) && isPK(a)) {
+		isPK := func(s *engine.Sources) bool { return s.HasField(pkF) && !s.HasCall(getAuthKey) }
+		if (isKey(sa, call.Call.Args[0]) && isPK(sb)) || (isKey(sb, call.Call.Args[1]) && isPK(sa)) {
 			okKey = true
 		}
 	}
 	if okKey {
 		return ""
 	}
-	// (c) scope not enabled (ping / work conn only), with the scope constant of this message
+	// (c) scope not enabled (ping / work conn only), with the scope constant of this message: a membership test of the
+	// configured additional scopes came out false. The test is slices.Contains, or a helper that is one (explored inline)
+	// or that is a plain membership loop.
 	if scope != "" {
+		if os.Getenv("FRPSA_DEBUG_C04") != "" {
+			for _, l := range st.Lits {
+				fmt.Fprintf(os.Stderr, "C04 %s lit op=%v val=%v X=%s Y=%v ret=%v\n", mname, l.Op, l.Val, engine.Describe(l.X), l.Y, st.Returned(l.X))
+			}
+		}
 		for _, l := range st.Lits {
 			if l.Op != 0 || l.Val {
 				continue
 			}
-			call, _ := engine.ResultOfCall(l.X)
-			if call == nil {
-				continue
-			}
-			o := engine.CalleeObj(call)
-			if o == nil || o.Name() != "Contains" || o.Pkg() == nil || o.Pkg().Path() != "slices" || len(call.Call.Args) != 2 {
+			list, elem, ok := membershipTest(st, l.X)
+			if !ok {
 				continue
 			}
 			want, _ := c.P.Obj("pkg/config/v1", "AuthScope"+scope).(*types.Const)
-			got, isConst := call.Call.Args[1].(*ssa.Const)
+			es := st.DeepSources(p, elem, false)
+			constOK := want != nil && len(es.Consts) == 1 && es.Consts[want.Val().ExactString()]
 			listOK := false
-			lst := engine.Provenance(call.Call.Args[0], engine.ProvOpts{})
-			for fv := range lst.Fields {
-				if fv.Name() == "additionalAuthScopes" {
+			for fv := range st.DeepSources(p, list, true).Fields {
+				if fv.Pkg() == nil {
+					continue
+				}
+				if strings.HasSuffix(fv.Pkg().Path(), "/pkg/auth") && fv.Name() == "additionalAuthScopes" ||
+					strings.HasSuffix(fv.Pkg().Path(), "/pkg/config/v1") && fv.Name() == "AdditionalScopes" {
 					listOK = true
 				}
 			}
-			if want != nil && isConst && got.Value != nil && got.Value.ExactString() == want.Val().ExactString() && listOK {
+			if constOK && listOK {
 				return ""
 			}
-			return fmt.Sprintf("%s returns nil because a scope is absent, but the scope tested is not AuthScope%s of additionalAuthScopes", mname, scope)
+			return fmt.Sprintf("%s returns nil because a scope is absent, but the scope tested is not AuthScope%s of the configured additional scopes", mname, scope)
 		}
 	}
 	return mname + " can return nil on a path with no successful key comparison, no successful OIDC verification and no disabled-scope test"
@@ -777,4 +840,100 @@ func checkHeartbeatGate(c *engine.Ctx, rule string) {
 	}
 	c.Floor(n, 2)
 
+}
+
+// membershipTest: is v the result of "list contains elem"? — slices.Contains / lo.Contains, a helper whose inlined return is
+// such a call, or a repository function that is a plain membership loop over one parameter.
+func membershipTest(st *engine.PathState, v ssa.Value) (list, elem ssa.Value, ok bool) {
+	for i := 0; i < 4; i++ {
+		call, _ := engine.ResultOfCall(v)
+		if call == nil {
+			return nil, nil, false
+		}
+		o := engine.CalleeObj(call)
+		args := engine.CallArgs(call)
+		if o != nil && o.Pkg() != nil && o.Name() == "Contains" && (o.Pkg().Path() == "slices" || strings.HasSuffix(o.Pkg().Path(), "samber/lo")) && len(args) == 2 {
+			return args[0], args[1], true
+		}
+		if r := st.Returned(v); r != nil && r != v {
+			if rc, _ := engine.ResultOfCall(st.Resolve(r)); rc != nil {
+				v = st.Resolve(r)
+				continue
+			}
+		}
+		if cf := engine.CalleeFn(call); cf != nil {
+			if li, ei, isLoop := membershipLoop(cf); isLoop && li < len(args) && ei < len(args) {
+				return args[li], args[ei], true
+			}
+		}
+		return nil, nil, false
+	}
+	return nil, nil, false
+}
+
+// membershipLoop recognises `for _, x := range p_i { if x == p_j { return true } }; return false` (in any loop spelling): no
+// effects, boolean constant results, the single `return true` guarded by an equality between p_j and an element of p_i.
+func membershipLoop(f *ssa.Function) (listIdx, elemIdx int, ok bool) {
+	if f.Blocks == nil || f.Signature.Results().Len() != 1 {
+		return 0, 0, false
+	}
+	var trues []*ssa.Return
+	pure := true
+	engine.ForEachInstr(f, func(in ssa.Instruction) {
+		switch x := in.(type) {
+		case *ssa.Store, *ssa.MapUpdate, *ssa.Send, *ssa.Go, *ssa.Defer, *ssa.Panic:
+			pure = false
+		case *ssa.Call:
+			if b, isB := x.Call.Value.(*ssa.Builtin); !isB || b.Name() != "len" {
+				pure = false
+			}
+		case *ssa.Return:
+			b, isC := engine.ConstBool(x.Results[0])
+			if !isC {
+				pure = false
+			} else if b {
+				trues = append(trues, x)
+			}
+		}
+	})
+	if !pure || len(trues) != 1 {
+		return 0, 0, false
+	}
+	blk := trues[0].Block()
+	if len(blk.Preds) != 1 {
+		return 0, 0, false
+	}
+	iff, isIf := blk.Preds[0].Instrs[len(blk.Preds[0].Instrs)-1].(*ssa.If)
+	if !isIf || blk.Preds[0].Succs[0] != blk {
+		return 0, 0, false
+	}
+	bo, isB := iff.Cond.(*ssa.BinOp)
+	if !isB || bo.Op != token.EQL {
+		return 0, 0, false
+	}
+	paramIdx := func(v ssa.Value) int {
+		for i, pr := range f.Params {
+			if v == ssa.Value(pr) {
+				return i
+			}
+		}
+		return -1
+	}
+	elemOf := func(v ssa.Value) int {
+		src := engine.Provenance(v, engine.ProvOpts{})
+		for pr := range src.Params {
+			if _, isSlice := pr.Type().Underlying().(*types.Slice); isSlice {
+				return paramIdx(pr)
+			}
+		}
+		return -1
+	}
+	for _, pair := range [][2]ssa.Value{{bo.X, bo.Y}, {bo.Y, bo.X}} {
+		if ei := paramIdx(pair[0]); ei >= 0 {
+			if li := elemOf(pair[1]); li >= 0 && li != ei {
+				return li, ei, true
+			}
+		}
+	}
+	return 0, 0, false
 }
